@@ -21,11 +21,27 @@ from . import c01, c06
 
 BR = list("()[]{}")
 TEMPLATES = [("void f(void) { x = a %s ; }", " "), ("void f(void) { x = a %s ; }", " a "),
-             ("int x %s ;", " "), ("int x %s ;", " 3 "), ("void f(void) { %s }", " "), ("void f(void) { %s }", " ; ")]
+             ("int x %s ;", " "), ("int x %s ;", " 3 "), ("void f(void) { %s }", " "), ("void f(void) { %s }", " ; "),
+             # inside a parenthesised declarator, where the parser looks ahead for the declared name
+             ("int ( * x %s ) ( void ) ;", " "), ("void f ( int ( * %s ) ( int ) ) ;", " "), ("int ( * %s x ) [ 2 ] ;", " ")]
 # text after the line number / file name / flags of a line directive, on the directive's own line
 DIRHEADS = ['# 3 "f.c" ', '#line 3 "f.c" ', '# 3 "f.c" 1 2 ', '# 3 ', '#line 3 ', '  #  3  "f.c"  1  ']
 DIRTAILS = ["@", "`", "\\", "/*", "//", "/* c */", "#define X 1", "x", ")", "}", "1 @", "1.5", "-1", "'a'", "int y;", "1 \"g\""]
 NONTOKENS = ["@", "`", "\\", "/*", "//", "\n#define X 1\n", "\n#if 1\n", "\n#include <a.h>\n", "\n#error x\n"]
+
+
+def balanced(text):
+    """The bracket machine of Brackets.tla / TokSeq.tla on the brackets of a text."""
+    st = []
+    close = {")": "(", "]": "[", "}": "{"}
+    for ch in text:
+        if ch in "([{":
+            st.append(ch)
+        elif ch in close:
+            if not st or st[-1] != close[ch]:
+                return False
+            st.pop()
+    return not st
 
 
 def _brk_work(chunk):
@@ -36,6 +52,8 @@ def _brk_work(chunk):
             continue
         for tmpl, sep in TEMPLATES:
             src = tmpl % sep.join(e["s"])
+            if balanced(src):
+                continue        # the template's own brackets pair with the string's: the text as a whole is balanced
             n += 1
             k, d = classify(src, "f.c", check_loc=False)
             if k == "ok":
@@ -45,7 +63,7 @@ def _brk_work(chunk):
     return n, bad
 
 
-def mutants(vals):
+def mutants(vals, inserts=True):
     for i, v in enumerate(vals):
         if v in BR:
             yield vals[:i] + vals[i + 1:]
@@ -53,6 +71,11 @@ def mutants(vals):
             for w in BR:
                 if w != v:
                     yield vals[:i] + [w] + vals[i + 1:]
+    # a stray bracket of any kind at any token boundary (small programs only: 6 x (n + 1) texts)
+    if inserts and len(vals) <= 60:
+        for i in range(len(vals) + 1):
+            for w in BR:
+                yield vals[:i] + [w] + vals[i:]
 
 
 def _mut_work(args):
